@@ -167,23 +167,29 @@ def run(cases, tier, seed):
         jm = model.get("m%d" % i)
         os_refused = jm is not None and jm.get("ok") and \
             "err" in runmod.os_oracle({"ok": [list(w) for w in jm["writes"]]})
+        # the model's cli_run against the real binary: this is the correspondence, not the property (which compares
+        # the binary with the library above); a difference here alone is reported as a broken correspondence
+        cfails = []
         if os_refused:
             # the model's writes include one the operating system refuses (empty path, file below a file)
             if o["rc"] == 0:
-                fails.append("exit status 0 although one of the predicted writes cannot be performed")
+                cfails.append("exit status 0 although one of the predicted writes cannot be performed")
         elif jm is not None:
             if jm["ok"] != (o["rc"] == 0):
-                fails.append("model cli_run status %s, real exit status %d" % (jm["ok"], o["rc"]))
+                cfails.append("model cli_run status %s, real exit status %d" % (jm["ok"], o["rc"]))
             elif jm["ok"]:
                 mt = {}
                 for p, t in jm["writes"]:
                     mt[os.path.normpath(p)] = t
                 if mt != o["tree"]:
-                    fails.append("model cli_run writes %s, real tree %s" % (sorted(mt), sorted(o["tree"])))
+                    bad = sorted(k for k in set(mt) | set(o["tree"]) if mt.get(k) != o["tree"].get(k))
+                    cfails.append("model cli_run writes %s, real tree %s (differing: %s)"
+                                  % (sorted(mt), sorted(o["tree"]), bad[:4]))
                 if jm["stdout"] != o["stdout"]:
-                    fails.append("model cli_run stdout differs from the real one")
-        if fails:
-            res["violations"].append({"case": c, "impl": None, "what": "; ".join(fails[:3]),
+                    cfails.append("model cli_run stdout differs from the real one")
+        if fails or cfails:
+            res["violations"].append({"case": c, "impl": None, "what": "; ".join((fails or cfails)[:3]),
+                                      "correspondence": not fails,
                                       "cli": {"output": output, "omit_version_comment": omit, "options": raw,
                                               "prior_state": prior}})
     return res
